@@ -8,16 +8,17 @@ from pathlib import Path
 from . import gen, tlc
 from .common import VENV_PY, VERIF
 
-WIRE = {"null": None, "t": True, "f": False, "i1": 1, "i2": 2, "i7": 7, "f15": 1.5, "f10": 1.0, "s": "abc", "ds": "2020-01-02",
+WIRE = {"null": None, "t": True, "f": False, "i0": 0, "se": "", "i1": 1, "i2": 2, "i7": 7, "f15": 1.5, "f10": 1.0, "s": "abc", "ds": "2020-01-02",
         "dts": "2020-01-02T03:04:05+00:00", "dt0": "2020-01-02T00:00:00", "us": "12345678-1234-5678-1234-567812345678",
         "m1": "a", "m2": "b", "objv": {"v": 1}, "objw": {"w": 2}, "objvw": {"v": 1, "w": 2}, "obj0": {}, "arr0": [], "arri": [1, 2],
         "arrd": ["2020-01-02"], "arro": [{"v": 1}], "arrs": ["abc"]}
-WIRESEQ = ["absent", "null", "t", "f", "i1", "i2", "i7", "f15", "f10", "s", "ds", "dts", "dt0", "us", "m1", "m2", "objv", "objw",
+WIRESEQ = ["absent", "null", "t", "f", "i0", "i1", "i2", "i7", "f15", "f10", "se", "s", "ds", "dts", "dt0", "us", "m1", "m2", "objv", "objw",
            "objvw", "obj0", "arr0", "arri", "arrd", "arro", "arrs"]
 UNION_KINDS = ["none", "str", "int", "date", "datetime", "uuid", "enums", "enumi", "modelM", "modelN", "listint", "listM"]
 COMPONENTS = {
-    "ES": {"type": "string", "enum": ["a", "b"]},
-    "EI": {"type": "integer", "enum": [1, 2]},
+    "ES": {"type": "string", "enum": ["", "a", "b"]},
+    "EI": {"type": "integer", "enum": [0, 1, 2]},
+    "O": {"type": "object", "properties": {"o": {"type": "string"}}},
     "M": {"type": "object", "required": ["v"], "properties": {"v": {"type": "integer"}}},
     "N": {"type": "object", "required": ["w"], "properties": {"w": {"type": "integer"}}},
     "S": {"type": "object", "required": ["v"], "properties": {"v": {"type": "integer"}}, "additionalProperties": False},
@@ -32,7 +33,7 @@ def leaf_schema(k: str) -> dict:
     return {"any": {}, "bool": {"type": "boolean"}, "int": {"type": "integer"}, "float": {"type": "number"}, "str": {"type": "string"},
             "date": {"type": "string", "format": "date"}, "datetime": {"type": "string", "format": "date-time"},
             "uuid": {"type": "string", "format": "uuid"}, "enums": ref("ES"), "enumi": ref("EI"), "none": {"type": "null"},
-            "modelM": ref("M"), "modelN": ref("N"), "modelS": ref("S"), "listint": {"type": "array", "items": {"type": "integer"}},
+            "modelM": ref("M"), "modelN": ref("N"), "modelS": ref("S"), "modelO": ref("O"), "listint": {"type": "array", "items": {"type": "integer"}},
             "listdate": {"type": "array", "items": {"type": "string", "format": "date"}},
             "listM": {"type": "array", "items": ref("M")}}[k]
 
@@ -88,7 +89,7 @@ def enumerate_descriptors(scratch_dir: Path, arity: int = 2, union_kinds=None):
     return tlc.run_tlc("CodecMC.tla", cfg, workers=1, extra=["-continue"], timeout=1800)
 
 
-PYMAP = {"date": "date", "datetime": "datetime", "UUID": "UUID", "Enum:ES": "EnumS", "Enum:EI": "EnumI", "Model:M": "M", "Model:N": "N", "Model:S": "S",
+PYMAP = {"date": "date", "datetime": "datetime", "UUID": "UUID", "Enum:ES": "EnumS", "Enum:EI": "EnumI", "Model:M": "M", "Model:N": "N", "Model:S": "S", "Model:O": "O",
          "Unset": "Unset"}
 
 
